@@ -215,13 +215,23 @@ theorem layoutText_false (p : GbRec × RecLayout) : layoutText p.1 p.2 false = u
 
 /-- the hypothesis on a record of a multi-record file: in the domain, and no line other than the
 terminator ends in `//` -/
-def RecOK (p : GbRec × RecLayout) : Prop := wf p.1 = true ∧ noSlashEnd p.1 p.2 = true
+def RecOK (p : GbRec × RecLayout) : Prop :=
+  wf p.1 = true ∧ noSlashEnd p.1 p.2 = true ∧ orgOmitted p.1 p.2 = false
 
-theorem plain_init (p : GbRec × RecLayout) (h : RecOK p) : ∀ l ∈ initOf p, Plain l := by
+/-- the same over the whole quantifier (`wfLoose`: repeated qualifier keys included) -/
+def RecOKL (p : GbRec × RecLayout) : Prop :=
+  wfLoose p.1 = true ∧ noSlashEnd p.1 p.2 = true ∧ orgOmitted p.1 p.2 = false
+
+theorem RecOK.loose {p : GbRec × RecLayout} (h : RecOK p) : RecOKL p := ⟨(wf_loose h.1).1, h.2⟩
+
+theorem RecOK.toSequenceM {p : GbRec × RecLayout} (h : RecOK p) : toSequenceM p.1 = toSequence p.1 :=
+  toSequenceM_eq (wf_loose h.1).2
+
+theorem plain_init (p : GbRec × RecLayout) (h : RecOKL p) : ∀ l ∈ initOf p, Plain l := by
   intro l hl
   have hmem : l ∈ layout p.1 p.2 := by rw [layout_eq_init]; exact List.mem_append_left _ hl
-  refine ⟨nl_not_mem_of_PL (PL_layout p.1 p.2 (wf_loose h.1).1 l hmem), ?_⟩
-  have := h.2
+  refine ⟨nl_not_mem_of_PL (PL_layout p.1 p.2 h.1 l hmem), ?_⟩
+  have := h.2.1
   unfold noSlashEnd at this
   rw [List.all_eq_true] at this
   have := this l hl
@@ -287,8 +297,8 @@ theorem hasSuffix_trimSpace_slashes (X : Str) : hasSuffix (trimSpace (X ++ c!"//
 def fileText (ps : List (GbRec × RecLayout)) (fnl : Bool) : Str :=
   join c!"\n" ((ps.map fun p => layout p.1 p.2).flatten) ++ (if fnl then c!"\n" else [])
 
-theorem parse_recText (p : GbRec × RecLayout) (h : RecOK p) : parse (recText (initOf p)) = .ok (toSequence p.1) := by
-  rw [← layoutText_true]; exact parse_layoutText p.1 p.2 true h.1
+theorem parse_recText (p : GbRec × RecLayout) (h : RecOKL p) : parse (recText (initOf p)) = .ok (toSequenceM p.1) := by
+  rw [← layoutText_true]; exact parse_layoutText_loose p.1 p.2 true h.1 h.2.2
 
 theorem mapOutcome_map {α β γ : Type} (f : β → Outcome γ) (g : α → β) (l : List α) :
     mapOutcome f (l.map g) = mapOutcome (fun a => f (g a)) l := by
@@ -301,15 +311,15 @@ theorem parseMulti_of_pieces (text : Str) (pieces : List Str) (h : splitAfter te
       (if !hasSuffix (trimSpace (pieces.getLastD [])) c!"//" then pieces.dropLast else pieces) := by
   simp only [parseMulti, h]
 
-theorem parse_pieces (qs : List (GbRec × RecLayout)) (hq : ∀ q ∈ qs, RecOK q) :
-    mapOutcome parse ((qs.map initOf).map recText) = .ok (qs.map fun p => toSequence p.1) := by
+theorem parse_pieces (qs : List (GbRec × RecLayout)) (hq : ∀ q ∈ qs, RecOKL q) :
+    mapOutcome parse ((qs.map initOf).map recText) = .ok (qs.map fun p => toSequenceM p.1) := by
   rw [List.map_map, mapOutcome_map]
   exact mapOutcome_ok _ _ qs (fun q hqm => parse_recText q (hq q hqm))
 
 /-- k records, each terminated by `//`, give k results in file order, each what its record states -/
-theorem parseMulti_fileText (ps : List (GbRec × RecLayout)) (fnl : Bool) (hne : ps ≠ []) (hok : ∀ p ∈ ps, RecOK p) :
-    parseMulti (fileText ps fnl) = .ok (ps.map fun p => toSequence p.1) := by
-  have hplain : ∀ qs : List (GbRec × RecLayout), (∀ q ∈ qs, RecOK q) → ∀ init ∈ qs.map initOf, ∀ l ∈ init, Plain l := by
+theorem parseMulti_fileText (ps : List (GbRec × RecLayout)) (fnl : Bool) (hne : ps ≠ []) (hok : ∀ p ∈ ps, RecOKL p) :
+    parseMulti (fileText ps fnl) = .ok (ps.map fun p => toSequenceM p.1) := by
+  have hplain : ∀ qs : List (GbRec × RecLayout), (∀ q ∈ qs, RecOKL q) → ∀ init ∈ qs.map initOf, ∀ l ∈ init, Plain l := by
     intro qs hq init hi l hl
     obtain ⟨q, hqm, rfl⟩ := List.mem_map.mp hi
     exact plain_init q (hq q hqm) l hl
@@ -333,8 +343,8 @@ theorem parseMulti_fileText (ps : List (GbRec × RecLayout)) (fnl : Bool) (hne :
     obtain ⟨qs, p, rfl⟩ : ∃ qs p, ps = qs ++ [p] := by
       have := List.dropLast_concat_getLast hne
       exact ⟨ps.dropLast, ps.getLast hne, this.symm⟩
-    have hq : ∀ q ∈ qs, RecOK q := fun q hqm => hok q (by simp [hqm])
-    have hp : RecOK p := hok p (by simp)
+    have hq : ∀ q ∈ qs, RecOKL q := fun q hqm => hok q (by simp [hqm])
+    have hp : RecOKL p := hok p (by simp)
     have htext : fileText (qs ++ [p]) false = ((qs.map initOf).map recText).flatten ++ (unlines (initOf p) ++ c!"//") := by
       unfold fileText; simp only [Bool.false_eq_true, if_false, List.append_nil]; exact fileText_nonl qs p
     obtain ⟨F', hF', heq⟩ := splitAfterGo_records (qs.map initOf) (hplain qs hq)
@@ -355,8 +365,8 @@ theorem parseMulti_fileText (ps : List (GbRec × RecLayout)) (fnl : Bool) (hne :
     rw [hlast, hasSuffix_trimSpace_slashes]
     simp only [Bool.not_true, Bool.false_eq_true, if_false]
     -- all pieces: the records with their line break, then the last one without
-    have hlastparse : parse (unlines (initOf p) ++ c!"//") = .ok (toSequence p.1) := by
-      rw [← layoutText_false]; exact parse_layoutText p.1 p.2 false hp.1
+    have hlastparse : parse (unlines (initOf p) ++ c!"//") = .ok (toSequenceM p.1) := by
+      rw [← layoutText_false]; exact parse_layoutText_loose p.1 p.2 false hp.1 hp.2.2
     have hall : ∀ (A : List Str) (B : List Sequence) (x : Str) (y : Sequence), mapOutcome parse A = .ok B → parse x = .ok y →
         mapOutcome parse (A ++ [x]) = .ok (B ++ [y]) := by
       intro A
@@ -393,18 +403,18 @@ theorem layoutFile_noheader (rs : List GbRec) (ℓ : FileLayout) (hh : ℓ.heade
   unfold layoutFile fileText
   rw [hh, recordsLines_eq]; rfl
 
-theorem parseMulti_layoutFile (rs : List GbRec) (ℓ : FileLayout) (hh : ℓ.header = none) (hne : rs ≠ [])
-    (hok : ∀ p ∈ zipLay rs ℓ.recs, RecOK p) :
-    parseMulti (layoutFile rs ℓ) = .ok (rs.map toSequence) := by
+theorem parseMulti_layoutFile_loose (rs : List GbRec) (ℓ : FileLayout) (hh : ℓ.header = none) (hne : rs ≠ [])
+    (hok : ∀ p ∈ zipLay rs ℓ.recs, RecOKL p) :
+    parseMulti (layoutFile rs ℓ) = .ok (rs.map toSequenceM) := by
   rw [layoutFile_noheader rs ℓ hh, parseMulti_fileText _ _ (zipLay_ne_nil rs ℓ.recs hne) hok]
   congr 1
   have := zipLay_map_fst rs ℓ.recs
   conv => rhs; rw [← this]
   rw [List.map_map]; rfl
 
-theorem parseFlat_layoutFile (rs : List GbRec) (ℓ : FileLayout) (H : List Str) (hh : ℓ.header = some H)
-    (hH : H.length = 10) (hHnl : ∀ l ∈ H, '\n' ∉ l) (hne : rs ≠ []) (hok : ∀ p ∈ zipLay rs ℓ.recs, RecOK p) :
-    parseFlat (layoutFile rs ℓ) = .ok (rs.map toSequence) := by
+theorem parseFlat_layoutFile_loose (rs : List GbRec) (ℓ : FileLayout) (H : List Str) (hh : ℓ.header = some H)
+    (hH : H.length = 10) (hHnl : ∀ l ∈ H, '\n' ∉ l) (hne : rs ≠ []) (hok : ∀ p ∈ zipLay rs ℓ.recs, RecOKL p) :
+    parseFlat (layoutFile rs ℓ) = .ok (rs.map toSequenceM) := by
   have hRLne : recordsLines rs ℓ.recs ≠ [] := by
     rw [recordsLines_eq]
     cases hz : zipLay rs ℓ.recs with
@@ -417,7 +427,7 @@ theorem parseFlat_layoutFile (rs : List GbRec) (ℓ : FileLayout) (H : List Str)
     intro l hl
     obtain ⟨L, hL, hlL⟩ := List.mem_flatten.mp hl
     obtain ⟨p, hp, rfl⟩ := List.mem_map.mp hL
-    exact nl_not_mem_of_PL (PL_layout p.1 p.2 (wf_loose (hok p hp).1).1 l hlL)
+    exact nl_not_mem_of_PL (PL_layout p.1 p.2 (hok p hp).1 l hlL)
   have hne2 : H ++ recordsLines rs ℓ.recs ≠ [] := List.append_ne_nil_of_right_ne_nil _ hRLne
   have hnl2 : ∀ l ∈ H ++ recordsLines rs ℓ.recs, '\n' ∉ l := by
     intro l hl; rcases List.mem_append.mp hl with h | h
@@ -458,6 +468,33 @@ theorem parseFlat_layoutFile (rs : List GbRec) (ℓ : FileLayout) (H : List Str)
     | false => simp
     | true => simp only [if_true]; exact join_snoc_nil c!"\n" _ hRLne
   rw [hjoin]
-  exact parseMulti_layoutFile rs { ℓ with header := none } rfl hne hok
+  exact parseMulti_layoutFile_loose rs { ℓ with header := none } rfl hne hok
+
+theorem map_toSequenceM (rs : List GbRec) (ls : List RecLayout) (hok : ∀ p ∈ zipLay rs ls, RecOK p) :
+    rs.map toSequenceM = rs.map toSequence := by
+  induction rs generalizing ls with
+  | nil => rfl
+  | cons r rs' ih =>
+    simp only [List.map_cons]
+    rw [(hok (r, ls.headD {}) (by simp [zipLay])).toSequenceM, ih ls.tail (fun p hp => hok p (by simp [zipLay, hp]))]
+
+theorem parseMulti_layoutFile (rs : List GbRec) (ℓ : FileLayout) (hh : ℓ.header = none) (hne : rs ≠ [])
+    (hok : ∀ p ∈ zipLay rs ℓ.recs, RecOK p) :
+    parseMulti (layoutFile rs ℓ) = .ok (rs.map toSequence) := by
+  rw [parseMulti_layoutFile_loose rs ℓ hh hne (fun p hp => (hok p hp).loose), map_toSequenceM rs ℓ.recs hok]
+
+theorem parseFlat_layoutFile (rs : List GbRec) (ℓ : FileLayout) (H : List Str) (hh : ℓ.header = some H)
+    (hH : H.length = 10) (hHnl : ∀ l ∈ H, '\n' ∉ l) (hne : rs ≠ []) (hok : ∀ p ∈ zipLay rs ℓ.recs, RecOK p) :
+    parseFlat (layoutFile rs ℓ) = .ok (rs.map toSequence) := by
+  rw [parseFlat_layoutFile_loose rs ℓ H hh hH hHnl hne (fun p hp => (hok p hp).loose), map_toSequenceM rs ℓ.recs hok]
+
+theorem mem_zipLay (rs : List GbRec) (ls : List RecLayout) (r : GbRec) (h : r ∈ rs) : ∃ l, (r, l) ∈ zipLay rs ls := by
+  induction rs generalizing ls with
+  | nil => cases h
+  | cons a rs' ih =>
+    rcases List.mem_cons.mp h with rfl | h
+    · exact ⟨ls.headD {}, by simp [zipLay]⟩
+    · obtain ⟨l, hl⟩ := ih ls.tail h
+      exact ⟨l, by simp [zipLay, hl]⟩
 
 end PolyVerif.Lemmas.Genbank
